@@ -10,5 +10,15 @@ TEXT = {
                 "flat-tree root = RFC 6962 MTH is checked by evaluation per generated tree, not yet by a closed proof.",
         "technique": "Lean 4 proof (induction over audit path / index levels) + differential correspondence with the Rust crate",
     },
+    "C16": {
+        "text": "Lean 4 invariant proved by induction over every sequence of push / finished-pop / pop_now, every maximum and capacity: "
+                "emitted ++ finished ++ current bundles flatten to exactly the accepted actions in order, every bundle's size is the sum of "
+                "its actions and <= max, refusal iff (too large, or does not fit and queue full) and refusal is a no-op. Every run drives the "
+                "real BundleFactory with generated sequences and diffs its complete private state with the model after each op, and evaluates "
+                "the same invariant on the implementation's own states.",
+        "design_ref": "DESIGN.md §6 C16",
+        "note": "Trusted: Lean kernel, hand-written model, harness/driver, prost encoded_len. Executor select-loop glue not modelled.",
+        "technique": "Lean 4 proof (invariant by induction over operations) + differential correspondence on state dumps",
+    },
 }
 NOT_APPLICABLE = {}
